@@ -52,10 +52,11 @@ def run_to(ck: Check, case: dict):
         reach = d is not None and d <= 2 * depth
         ck.case(["mitm.to", gd.key(), cfg, D, q], True, sample={"op": "find_path_to", "gd_tag": gd.tag, "cfg": cfg, "D": depth, "true_dist": d})
         ck.traces += 1
+        ck.count("container:" + case.get("container", "list"))
         ck.count("to:" + ("in-ball" if d is not None and d <= depth else "beyond-ball<=2D" if reach else "beyond-2D" if d is not None else "unreachable"))
         if d is not None and d == 2 * depth:
             ck.count("to:exactly-2D")
-        st, p = algos.call(MeetInTheMiddle.find_path_to, g, q, r)
+        st, p = algos.call(MeetInTheMiddle.find_path_to, g, algos.container(case.get("container", "list"), q), r)
         rep = {"case": dict(case, queries=[q], op="to"), "true_distance": d, "ball_depth": depth}
         if st != "ok":
             ck.violation("C05/find_path_to/error", "MITM find_path_to raised: " + p, dict(rep, observed=p))
@@ -83,7 +84,7 @@ def run_to(ck: Check, case: dict):
         elif mres[1] != p:
             ck.count("drift:mitm.to path differs (non-binding)")
         if g.definition.generators_inverse_closed:
-            st, pf = algos.call(MeetInTheMiddle.find_path_from, g, q, r)
+            st, pf = algos.call(MeetInTheMiddle.find_path_from, g, algos.container(case.get("container", "list"), q), r)
             if st != "ok" or pf is None or ctx.apply_path(q, pf) != tuple(gd.central) or len(pf) != d:
                 ck.violation("C05/find_path_from/invalid", f"MITM find_path_from wrong: {pf}", dict(rep, observed=pf))
         ev = graphs.drain_events()
@@ -112,7 +113,7 @@ def run_between(ck: Check, case: dict):
     ck.count("between:" + ("intersect" if best == 0 else "within-2M" if reach else "beyond-2M" if best is not None else "unreachable"))
     if best is not None and best == 2 * M:
         ck.count("between:exactly-2M")
-    st, res = algos.call(MeetInTheMiddle.find_path_between, g, algos.states_tensor(S), algos.states_tensor(T), M)
+    st, res = algos.call(MeetInTheMiddle.find_path_between, g, algos.container(case.get("container", "torch.int64"), S), algos.container(case.get("container", "torch.int64"), T), M)
     rep = {"case": dict(case, op="between"), "true_min_distance": best}
     if st != "ok":
         ck.violation("C05/between/error", "find_path_between raised: " + res, dict(rep, observed=res))
@@ -165,7 +166,8 @@ def gen_to(ck, cap):
     queries = []
     for li in {min(ecc, D), min(ecc, D + 1), min(ecc, 2 * D), min(ecc, 2 * D + 1), rng.randint(0, ecc), ecc}:
         queries.append(list(rng.choice(layers[li])))
-    return {"gd": gd.to_json(), "cfg": graphs.gen_cfg(rng, gd), "D": D, "queries": queries}
+    flat = [x for q in queries for x in q]
+    return {"gd": gd.to_json(), "cfg": graphs.gen_cfg(rng, gd), "D": D, "queries": queries, "container": algos.pick_container(rng, max(flat), min(flat))}
 
 
 def gen_between(ck, cap):
@@ -189,7 +191,8 @@ def gen_between(ck, cap):
         T.append(list(T[-1]))
         rng.shuffle(T)
     M = rng.choice([0, 1, 1, 2, 3, (ecc + 1) // 2, ecc])
-    return {"gd": gd.to_json(), "cfg": graphs.gen_cfg(rng, gd), "S": S, "T": T, "M": M, "op": "between"}
+    flat = [x for q in S + T for x in q]
+    return {"gd": gd.to_json(), "cfg": graphs.gen_cfg(rng, gd), "S": S, "T": T, "M": M, "op": "between", "container": algos.pick_container(rng, max(flat), min(flat))}
 
 
 def main():
